@@ -168,6 +168,35 @@ def check_tempfiles_and_determinism(R):
             shutil.rmtree(cd, ignore_errors=True)
 
 
+def check_reference_arguments(R):
+    """Reference vectors / distribution supplied by the caller (rows NOT of unit length, so that an in-place normalisation shows)."""
+    rng = np.random.RandomState(7)
+    X = sp.csr_matrix(np.array([[1.0, 0, 2, 0, 1], [0, 3, 0, 1, 0], [2, 0, 0, 0, 2], [0, 1, 1, 1, 0]]))
+    vectors = rng.normal(size=(5, 3)) * 2.0
+    refs = rng.normal(size=(4, 3)) * np.array([[3.0], [0.5], [5.0], [2.0]])
+    refd = np.full(4, 0.25)
+    for method in ("LOT_exact", "LOT_sinkhorn"):
+        for call in ("fit", "fit_transform", "transform"):
+            a = dict(X=X.copy(), vectors=vectors.copy(), reference_vectors=refs.copy(), reference_distribution=refd.copy())
+            before = {k: snap(v) for k, v in a.items()}
+            name = "WassersteinRefs[%s]" % method
+            try:
+                est = V.WassersteinVectorizer(method=method, random_state=0, memory_size="1k")
+                if call == "transform":
+                    est.fit(X.copy(), vectors=vectors.copy(), reference_vectors=refs.copy(), reference_distribution=refd.copy())
+                    est.transform(a["X"], vectors=a["vectors"])
+                else:
+                    getattr(est, call)(a["X"], vectors=a["vectors"], reference_vectors=a["reference_vectors"], reference_distribution=a["reference_distribution"])
+            except EXC as ex:
+                R.case((name, call))
+                R.fail("%s/%s-%s" % (name, call, type(ex).__name__), "%s raises %s: %s" % (call, type(ex).__name__, str(ex)[:100]), estimator=name)
+                continue
+            R.case((name, call), nontrivial=True)
+            for k, v in a.items():
+                if snap(v) != before[k]:
+                    R.fail("%s/%s-mutates-%s" % (name, call, k), "%s modified the caller's `%s` array" % (call, k), estimator=name, call=call)
+
+
 def run(tier, seed):
     R = Recorder("for every estimator of the catalogue: deep snapshots (incl. sparse storage arrays) of X and of the keyword arguments before/after fit, fit_transform, "
                  "transform; user token_dictionary and fitted dictionary before/after; caller-owned sparse matrices with explicit zeros / unsorted indices; cache "
@@ -176,6 +205,7 @@ def run(tier, seed):
         check_entry(R, e)
     check_params(R)
     check_sparse_inputs(R)
+    check_reference_arguments(R)
     check_tempfiles_and_determinism(R)
     return R.result()
 
